@@ -34,6 +34,8 @@ func runC12(c *Ctx) {
 	r.Rule("C12.R3", "addSenderSDP: msid = \"msid:\" + track.StreamID() + \" \" + track.ID(); every WithMediaSource ssrc and every ssrc-group member is a field of the loop variable over sender.GetParameters().Encodings (FID: SSRC, RTX.SSRC; FEC-FR: SSRC, FEC.SSRC), labels are (StreamID, ID) of the sender's track; GetParameters fills SSRC/RTX/FEC from trackEncoding.ssrc/ssrcRTX/ssrcFEC; Send stores parameters.Encodings[idx].{SSRC,RTX.SSRC,FEC.SSRC} into the same encoding's fields and stream; Send's only caller passes sender.GetParameters(); the SSRC fields are written only in addEncoding, Send and configureRTXAndFEC", 18)
 	r.Rule("C12.R5", "CreateDataChannel: no possibly-failing return is reachable after dataChannelsRequested was incremented, except under `sctpTransport.State() == SCTPTransportStateConnected` (a rejected CreateDataChannel must not make the next offer carry an application section)", 1)
 	r.Rule("C12.R6", "sibling agreement: each of trackEncoding.ssrcRTX / ssrcFEC is given a non-zero value in addEncoding under a MediaEngine predicate and cleared in configureRTXAndFEC under the negation of the SAME predicate; the two fields use different predicates", 3)
+	r.Rule("C12.R7", "same rule as C09.R5 / C06.R4: CreateOffer's scans over the current remote description's sections and over the transceivers visit every element and raise greaterMid for every numeric mid (a fresh transceiver never gets the mid of another m-section, e.g. the application section)", 2)
+	r.Rule("C12.R8", "ReplaceTrack records the track it bound: every path from the new track's successful Bind to a successful return passes a store of the new track into the encoding the generators read the msid from", 1)
 	r.Rule("C12.R4", "the direction attribute and the media kind of an accepted section come from the section's first transceiver (Direction().String(), kind.String())", 2)
 	r.NotCovered = append(r.NotCovered,
 		"that no transceiver is lost between the API call (AddTrack/AddTransceiver…) and the offer",
@@ -46,6 +48,8 @@ func runC12(c *Ctx) {
 	c06Agree386(c, "C12.R1", c12Rules)
 	c12R5(c) // c12b.go
 	c12R6(c)
+	c09R5(c, "C12.R7") // c09b.go
+	c12R8(c)
 	c06Dump(c)
 }
 
